@@ -7,6 +7,8 @@ import (
 	"strings"
 	"time"
 
+	"github.com/cloudwego/eino/compose"
+
 	"verifharness/internal/gspec"
 	"verifharness/internal/mon"
 )
@@ -32,10 +34,13 @@ var runHooks struct {
 	classify func(unreleased []string) string
 	after    func(execs []gspec.Exec, prods []gspec.Producer)
 	witness  map[string]any
+	opts     []compose.Option // extra call options (intwait_test.go: the checkpoint id)
+	onErr    func(err error)  // told about the error of a run that failed (is it an interrupt?)
 }
 
 func clearHooks() {
 	runHooks.body, runHooks.chunk, runHooks.classify, runHooks.after, runHooks.witness = nil, nil, nil, nil, nil
+	runHooks.opts, runHooks.onErr = nil, nil
 }
 
 func installDelays(ctl *gspec.RunCtl) {
